@@ -640,7 +640,7 @@ NeverRaises == pc # "raised"
 Dump == [scn |-> [subs |-> G, mode |-> mode, inmode |-> inmode, outmode |-> outmode],
          pc |-> pc, why |-> why,
          R |-> [s \in 1..Len(R) |-> [ops |-> R[s].ops, outs |-> R[s].outs, dt |-> R[s].dt, par |-> R[s].par,
-                                       nm |-> R[s].nm]],
+                                       nm |-> R[s].nm, data |-> RX[s].data]],
          props |-> [topo |-> InvTopo, wf |-> InvWellFormed, skel |-> InvSkeleton, kf7 |-> ~InvSkeletonStrict /\ InvSkeleton,
                     modes |-> InvModes, params |-> InvParams, bytes |-> InvBytes]]
 DumpC == Terminal => PrintT(<<"DUMP", ToJson(Dump)>>)
